@@ -469,7 +469,7 @@ impl TransactionBuilder {
             #[cfg(feature = "verif-hooks")]
             crate::verif_hooks::probe("sel_shortcut", available_inputs.len() as u64);
             let input_fee =
-                self.fee_for_input(&input.output.address, &input.input, &input.output.amount)?;
+                self.fee_for_utxo(&input)?;
             self.inputs.add_regular_utxo(&input)?;
             input_total = input_total.checked_add(&input.output.amount)?;
             output_total = output_total.checked_add(&Value::new(&input_fee))?;
@@ -530,11 +530,7 @@ impl TransactionBuilder {
                     #[cfg(feature = "verif-hooks")]
                     crate::verif_hooks::probe("ri_fee_topup", i as u64);
                     let input = &available_inputs[i];
-                    let input_fee = self.fee_for_input(
-                        &input.output.address,
-                        &input.input,
-                        &input.output.amount,
-                    )?;
+                    let input_fee = self.fee_for_utxo(&input)?;
                     self.inputs.add_regular_utxo(&input)?;
                     input_total = input_total.checked_add(&input.output.amount)?;
                     output_total = output_total.checked_add(&Value::new(&input_fee))?;
@@ -612,11 +608,7 @@ impl TransactionBuilder {
                     #[cfg(feature = "verif-hooks")]
                     crate::verif_hooks::probe("ri_fee_topup", i as u64);
                     let input = &available_inputs[i];
-                    let input_fee = self.fee_for_input(
-                        &input.output.address,
-                        &input.input,
-                        &input.output.amount,
-                    )?;
+                    let input_fee = self.fee_for_utxo(&input)?;
                     self.inputs.add_regular_utxo(&input)?;
                     input_total = input_total.checked_add(&input.output.amount)?;
                     output_total = output_total.checked_add(&Value::new(&input_fee))?;
@@ -658,7 +650,7 @@ impl TransactionBuilder {
             crate::verif_hooks::probe("lf_add", *i as u64);
             // differing from CIP2, we include the needed fees in the targets instead of just output values
             let input_fee =
-                self.fee_for_input(&input.output.address, &input.input, &input.output.amount)?;
+                self.fee_for_utxo(&input)?;
             self.inputs.add_regular_utxo(&input)?;
             *input_total = input_total.checked_add(&input.output.amount)?;
             *output_total = output_total.checked_add(&Value::new(&input_fee))?;
@@ -780,11 +772,7 @@ impl TransactionBuilder {
             if let Some(associated) = associated_indices.get(&output_index) {
                 for i in associated.iter() {
                     let input = &available_inputs[*i];
-                    let input_fee = self.fee_for_input(
-                        &input.output.address,
-                        &input.input,
-                        &input.output.amount,
-                    )?;
+                    let input_fee = self.fee_for_utxo(&input)?;
                     self.inputs.add_regular_utxo(&input)?;
                     *input_total = input_total.checked_add(&input.output.amount)?;
                     *output_total = output_total.checked_add(&Value::new(&input_fee))?;
@@ -1123,6 +1111,22 @@ impl TransactionBuilder {
     #[deprecated(since = "10.2.0", note = "Use `.set_inputs`")]
     pub fn get_plutus_input_scripts(&self) -> Option<PlutusWitnesses> {
         self.inputs.get_plutus_input_scripts()
+    }
+
+    /// calculates how much the fee would increase if the given UTxO was added as a regular input,
+    /// including the fee for a reference script the UTxO carries
+    fn fee_for_utxo(&self, utxo: &TransactionUnspentOutput) -> Result<Coin, JsError> {
+        let mut self_copy = self.clone();
+        self_copy.set_final_fee(BigNum::zero());
+
+        let fee_before = min_fee(&self_copy)?;
+        let aligned_fee_before = self.fee_request.get_new_fee(fee_before);
+
+        self_copy.inputs.add_regular_utxo(utxo)?;
+        let fee_after = min_fee(&self_copy)?;
+        let aligned_fee_after = self.fee_request.get_new_fee(fee_after);
+
+        aligned_fee_after.checked_sub(&aligned_fee_before)
     }
 
     /// calculates how much the fee would increase if you added a given output
